@@ -35,6 +35,8 @@ func (node *tagMacroNode) Execute(ctx *ExecutionContext, writer TemplateWriter) 
 }
 
 func (node *tagMacroNode) call(ctx *ExecutionContext, args ...*Value) (*Value, error) {
+	verifEv("MacroIn", ctx.macroDepth, len(args), len(node.argsOrder), 0, node.name, "", ctx)
+	defer verifEv("MacroOut", 0, 0, 0, 0, node.name, "", ctx)
 	argsCtx := make(Context)
 
 	for k, v := range node.args {
